@@ -216,6 +216,23 @@ def check(rep, tier, seed):
     for c, a, e in zip(ucases, uimpl, uexp):
         if a != e:
             nbad.append((C.codec_line(c), a, f"unknown string id: expected {e}"))
+    # 70 000 distinct strings, then repeats of the strings whose ids sit on both sides of every table-size a reader or
+    # writer might treat specially (128, 16384, 65536): judged on the implementation alone (the model's table is a list)
+    nd = 70000
+    distinct = [f"k{i:x}" for i in range(nd)]
+    picks = [1, 2, 127, 128, 129, 255, 256, 257, 16383, 16384, 16385, 32767, 32768, 65535, 65536, 65537, 65538, 69999, 70000]
+    items = distinct + [distinct[i - 1] for i in picks] + ["fresh", distinct[65536], "fresh"]
+    bigc = R.mk(None, ("seq", "vec", 0, D), "(0" + "".join(" b" + G.hexs(x.encode()) for x in items) + ")", "00")
+    bimpl = C._run_codec_side(harness, [bigc], [C.codec_line(bigc)], C.workdir("C09big"), "big", 1, 3000)[0]
+    okb, whyb = R.judge_rt(bigc, bimpl)
+    enc_len = len(bimpl.split(" ")[1]) // 2 if bimpl.startswith("ok ") else 0
+    want_len = (len(zz(len(items))) + sum(len(zz(len(x))) + len(x) for x in distinct) + sum(len(zz(-i)) for i in picks)
+                + len(zz(5)) + 5 + len(zz(-65537)) + len(zz(-(nd + 1))))
+    if okb and enc_len != want_len:
+        okb, whyb = False, f"the encoding has {enc_len} bytes; with every repeat a back-reference it has {want_len}"
+    rep.coverage["many_distinct_strings"] = {"distinct": nd, "repeats_at_ids": picks, "ok": okb}
+    if not okb:
+        nbad.append((C.codec_line(bigc)[:200] + " ...", bimpl[:200], "70 000 distinct de-duplicated strings followed by repeats: " + whyb))
     rep.coverage["rule"] = (
         "sequences of deduplicated and plain strings over a 9-string alphabet (heavy repetition; includes the names "
         "that record headers carry) in flat streams, tuples, Vec, LinkedList, arrays, Option<Box<_>>, version-0 records, "
